@@ -152,9 +152,17 @@ func oneHistory(caseID string, seed int64, idx int, dir string) {
 	maxLog := []int64{1, 1, 1, 256, 2048, 1 << 20}[g.Intn(6)]
 	thr := []int{1, 1, 2, 8, 0}[g.Intn(5)]
 	steps := 24 + g.Intn(16)
+	scripted := idx%4 == 3
+	if scripted {
+		maxLog = 1
+	}
 
 	h := &History{caseID: caseID, seed: seed, g: g, m: newModel(shards)}
 	h.gen = newGen(g, h.m)
+	if scripted {
+		h.gen.scriptRecreate()
+		r.Count("histories_with_scripted_drop_recreate_compact_reopen", 1)
+	}
 	for _, index := range []string{"inmem", "tsi1"} {
 		h.envs = append(h.envs, &Env{Root: filepath.Join(dir, index), Index: index, ShardIDs: shards, MaxLog: maxLog, SFileThr: thr})
 	}
